@@ -98,6 +98,8 @@ def parse_sx(s):
 class BuildResult:
     def __init__(self):
         self.tie_broken = []      # extractor failures
+        self.shared_driver_note = None
+        self.tie_broken_elsewhere = []   # withheld tables that this property's modules do not import
         self.build_ok = True
         self.driver_ok = True
         self.build_log = ""
@@ -190,12 +192,28 @@ def build_and_audit(prop, extra_targets=()):
     res = BuildResult()
     lock = _lock()
     try:
-        res.tie_broken = run_extract()
         props_mod = f"PsModel.Props.{prop}"
+        closure = set(module_closure(props_mod)) | set(module_closure(f"PsModel.Drv.{prop}"))
+        res.tie_broken = []
+        for b in run_extract():
+            m = re.match(r"\[([^\]]*)\] (.*)", b)
+            # a withheld table only breaks the tie of the properties whose models import it
+            if not m or m.group(1).startswith("?") or any(g in closure for g in m.group(1).split(",")):
+                res.tie_broken.append(b)
+            else:
+                res.tie_broken_elsewhere.append(b)
         props_file = LEAN / "PsModel" / "Props" / f"{prop}.lean"
         res.theorems = theorem_names(props_file) if props_file.exists() else []
+        global DRV
         d = subprocess.run(["lake", "build", "verifdrv"], cwd=LEAN, capture_output=True, text=True)
         res.driver_ok = d.returncode == 0
+        if not res.driver_ok and (LEAN / f"Main{prop}.lean").exists():
+            # the shared driver does not link because ANOTHER property's model does not build: use this property's own
+            d1 = subprocess.run(["lake", "build", f"verifdrv_{prop}"], cwd=LEAN, capture_output=True, text=True)
+            if d1.returncode == 0:
+                DRV = LEAN / ".lake" / "build" / "bin" / f"verifdrv_{prop}"
+                res.driver_ok = True
+                res.shared_driver_note = "shared driver verifdrv did not build (another property's module); used verifdrv_" + prop
         targets = [f"+{props_mod}"] + list(extra_targets)
         p = subprocess.run(["lake", "build"] + targets, cwd=LEAN, capture_output=True, text=True)
         res.build_log = p.stdout + p.stderr + ("" if res.driver_ok else d.stdout + d.stderr)
